@@ -76,6 +76,9 @@ partial def loop (h : IO.FS.Stream) (st : DState) (lineNo : Nat) : IO DState := 
       let (ls, ms) := likeLine st.like toks
       let st ← emit { st with like := ls } lineNo ms
       loop h st (lineNo + 1)
+    | "quote" =>
+      let st ← emit st lineNo (quoteLine toks)
+      loop h st (lineNo + 1)
     | "ryu" =>
       let st ← emit st lineNo (ryuLine toks)
       loop h st (lineNo + 1)
